@@ -30,4 +30,13 @@ MCObj2 == [ p    |-> V("A", <<"A">>, {"x", "y", "z"}, "variant"),
             pp   |-> V("A", <<"A", "A">>, {"x", "y", "z"}, "variant"),
             ppo  |-> V("o", <<"A", "A", "o">>, {"z"}, "optional"),
             e    |-> V("C", <<"C">>, {}, "variant") ]                  \* no arches at all
+\* third pool (bottom-up construction): sub-trees are built on variants that are not in the forest yet and attached afterwards
+MCObj3 == [ a    |-> V("A", <<"A">>, {"x", "y"}, "variant"),
+            ab   |-> V("B", <<"A", "B">>, {"x", "y"}, "addon"),
+            aba  |-> V("A", <<"A", "B", "A">>, {"x"}, "addon"),
+            abz  |-> V("B", <<"A", "B">>, {"x", "z"}, "addon"),       \* arch z foreign to A
+            sab  |-> V("AB", <<"A", "B">>, {"x"}, "variant"),         \* dashed top-level UID equal to the UID of A's child B
+            saba |-> V("ABA", <<"A", "B", "A">>, {"x"}, "variant"),   \* ... and to the UID of A's grandchild
+            b    |-> V("B", <<"B">>, {"x"}, "variant"),
+            m    |-> V("C", <<"B", "C">>, {"x"}, "variant") ]
 =============================================================================
